@@ -71,6 +71,16 @@ PROPS = {
                       "only the flattened stream; u8sum = arithmetic sum); determinism and sink independence of the crate's objects "
                       "are checked by running every generated object into six sinks.",
     },
+    "C18": {
+        "rule": "cases = every caller-controlled count/length site at field maximum, maximum+1 and far beyond, in both cargo profiles: "
+                "package elements 254..65536 (Package and PackageBuilder, also nested), method arguments 6..255, Arg/Local indices, "
+                "name segments 254..1000, address ranges (all three widths: full range, min>max, random), field-entry lengths around "
+                "2^28 and near usize::MAX, PkgLength through the hook around 2^28, thorough: real 2^28-byte bodies; plus the table sites "
+                "(PPTT, CXIMS, HMAT, RIMT, RHCT, VIOT, SLIT, RQSC); the Spec says which inputs are oversize, those must be refused; "
+                "distinct = distinct case text",
+        "exhaustive": {"quick": False, "thorough": False},
+        "assumptions": COMMON_ASSUME + ["sizes that need more than the machine's memory (tables of 4 GiB, 2^32 entries) are outside the runs"],
+    },
     "C15": {
         "rule": "cases = pairs (construction A, construction B): Scope::new vs Scope::raw with body sizes 0..4200 exhaustively "
                 "(thorough: 2^20 +- 16) and random child lists; Package vs PackageBuilder with 0..255 elements; &str vs String; "
